@@ -205,7 +205,7 @@ func AttachIndex(path string, idx index.Index, offset uint64) error {
 	// TODO: instead of offset, maybe take padding?
 	// TODO: check that the given path is indeed a CARv2.
 	// TODO: update CARv2 header according to the offset at which index is written out.
-	out, err := os.OpenFile(path, os.O_CREATE|os.O_WRONLY|os.O_APPEND, 0o640)
+	out, err := os.OpenFile(path, os.O_CREATE|os.O_WRONLY, 0o640)
 	if err != nil {
 		return err
 	}
